@@ -206,6 +206,7 @@ def run_one(ch, ctx):
         n = min(n, 8)
     rseed = ch.draw(1 << 30)
     sim = SimRandom(rseed, ch.pick([0, 5, 20, 60]), ctx)
+    random.seed(rseed)   # should the library ever bypass the module attribute, runs stay repeatable
     env.seed_entropy(rseed)
     parsed = ch.chance(50)
     S = F.parse_schema(json.loads(json.dumps(schema))) if parsed else schema
